@@ -410,3 +410,103 @@ Proof.
   - left. repeat split; reflexivity.
   - cbn [app]. rewrite app_nil_r. exact Hsz.
 Qed.
+
+(* ---------------------------------------------------------------- the size side condition follows from the buffer sizes *)
+Definition tags_ok (l : list frame) : Prop :=
+  Forall (fun f => exists id, 1 <= id <= MAX_FIELD_NUMBER /\ fr_tag f = mtag id) l.
+
+Lemma frames_okE_from_sizes l : forall R1 R2 xo xn,
+  tags_ok l ->
+  blen (R1 ++ wrapE (rev l) xo ++ R2) < 2 ^ 64 -> blen (R1 ++ wrapE (rev l) xn ++ R2) < 2 ^ 64 ->
+  frames_okE (rev l) xo xn.
+Proof.
+  induction l as [|f l IH]; intros R1 R2 xo xn Ht Ho Hn; [exact I|].
+  inversion Ht as [|f' l' (id & Hid & Htag) Ht']; subst.
+  cbn [rev] in *. rewrite wrapE_snoc in Ho, Hn. apply frames_okE_snoc.
+  assert (Bo : blen (fr_body f (wrapE (rev l) xo)) < 2 ^ 64).
+  { unfold encE1 in Ho. rewrite !blen_app in Ho. pose proof (blen_nonneg R1). pose proof (blen_nonneg R2).
+    pose proof (blen_nonneg (fr_tag f)). pose proof (blen_nonneg (varint_enc (blen (fr_body f (wrapE (rev l) xo))))). lia. }
+  assert (Bn : blen (fr_body f (wrapE (rev l) xn)) < 2 ^ 64).
+  { unfold encE1 in Hn. rewrite !blen_app in Hn. pose proof (blen_nonneg R1). pose proof (blen_nonneg R2).
+    pose proof (blen_nonneg (fr_tag f)). pose proof (blen_nonneg (varint_enc (blen (fr_body f (wrapE (rev l) xn))))). lia. }
+  split; [|split; [|split; assumption]].
+  - apply (IH (fr_pre f) (fr_post f)); [exact Ht'| |]; unfold fr_body in Bo, Bn; assumption.
+  - exists (id * 8 + 2). split; [|exact Htag]. unfold MAX_FIELD_NUMBER in Hid. change (2 ^ 64) with 18446744073709551616. lia.
+Qed.
+
+Lemma actx_tags_ok S ids : forall name fs R1 l R2 xo tk,
+  schema_ok S = true -> actx S name fs ids = Some (R1, l, R2, xo, tk) -> tags_ok l.
+Proof.
+  induction ids as [|id rest IH]; intros name fs R1 l R2 xo tk Hs H; [discriminate|].
+  cbn [actx] in H. destruct (find_msg S name) as [md|] eqn:Hm; [|discriminate].
+  destruct (find_field md id) as [fd|] eqn:Hf; [|discriminate]. destruct (fd_label fd); try discriminate.
+  destruct rest as [|id2 rest].
+  - destruct (fsplit id fs) as [[[a v] b]|]; injection H; intros; subst; constructor.
+  - destruct (fd_type fd) as [|name']; [discriminate|]. destruct (fsplit id fs) as [[[a v] b]|]; [|discriminate].
+    destruct v; try discriminate.
+    destruct (actx S name' fs0 (id2 :: rest)) as [[[[[R1' l'] R2'] xo'] tk']|] eqn:Hc; [|discriminate].
+    injection H; intros; subst. constructor; [|eapply IH; eassumption].
+    exists id. split; [eapply schema_ok_field; eassumption|reflexivity].
+Qed.
+
+(* the theorem with natural hypotheses only: both buffers are shorter than 2^63 bytes *)
+Theorem coded_set_refines_msgpath' S root m ids x m' e R1 l R2 xo tk :
+  schema_ok S = true ->
+  wf_msg S root m = true -> blen (encode_msg m) < 2 ^ 63 -> blen (encode_msg m') < 2 ^ 63 ->
+  actx S root m ids = Some (R1, l, R2, xo, tk) ->
+  pset S root m (map PField ids) x = Some (m', e) ->
+  coded_set all_fixes S root (encode_msg m) (map PField ids) (wenc_val (sval x)) = CRes 0 e (encode_msg m').
+Proof.
+  intros Hsc Hwf Hsz Hsz' Hctx Hp.
+  eapply coded_set_refines_msgpath; try eassumption.
+  destruct (actx_enc_pset S ids root m R1 l R2 xo tk Hwf Hctx) as [Eenc Hset].
+  unfold pset in Hp.
+  destruct (pset_at S LSingular (TMsg root) (VMsg m) (map PField ids) x) as [[v' e']|] eqn:Hpa; [|discriminate].
+  destruct (Hset x v' e' Hpa) as (fs' & -> & He & Eenc').
+  destruct (wf_msg S root fs'); [|discriminate]. injection Hp as <- <-.
+  apply (frames_okE_from_sizes l R1 R2).
+  - eapply actx_tags_ok; eassumption.
+  - unfold encode_msg in Hsz. rewrite Eenc in Hsz. change (2 ^ 63) with 9223372036854775808 in Hsz.
+    change (2 ^ 64) with 18446744073709551616. lia.
+  - unfold encode_msg in Hsz'. rewrite Eenc' in Hsz'. change (2 ^ 63) with 9223372036854775808 in Hsz'.
+    change (2 ^ 64) with 18446744073709551616. lia.
+Qed.
+
+(* ---------------------------------------------------------------- histories of field-path sets at any depth *)
+Definition coded_setp_bytes (S : schema) (root : list Z) (buf : list Z) (o : list Z * pval) : list Z :=
+  match coded_set all_fixes S root buf (map PField (fst o)) (wenc_val (sval (snd o))) with
+  | CRes 0 _ b => b
+  | _ => buf
+  end.
+Definition spec_setp (S : schema) (root : list Z) (m : pmsg) (o : list Z * pval) : pmsg :=
+  pstep_total S root m (OSet (map PField (fst o)) (snd o)).
+
+(* every operation: a path of field numbers through present singular sub-messages to a singular field (present or
+   absent), accepted by the specification; all buffers below 2^63 bytes *)
+Fixpoint ops_in_msgpath_fragment (S : schema) (root : list Z) (m : pmsg) (ops : list (list Z * pval)) : Prop :=
+  match ops with
+  | [] => True
+  | o :: r =>
+    (exists c, actx S root m (fst o) = Some c) /\
+    blen (encode_msg m) < 2 ^ 63 /\
+    (exists m' e, pset S root m (map PField (fst o)) (snd o) = Some (m', e) /\ blen (encode_msg m') < 2 ^ 63) /\
+    ops_in_msgpath_fragment S root (spec_setp S root m o) r
+  end.
+
+Theorem history_refines_msgpath S root ops : forall m,
+  schema_ok S = true -> wf_msg S root m = true -> ops_in_msgpath_fragment S root m ops ->
+  forall k, fold_left (coded_setp_bytes S root) (firstn k ops) (encode_msg m)
+            = encode_msg (fold_left (spec_setp S root) (firstn k ops) m).
+Proof.
+  induction ops as [|o r IH]; intros m Hsc Hwf Hfr k.
+  - rewrite firstn_nil. reflexivity.
+  - destruct k as [|k]; [reflexivity|]. cbn [firstn fold_left].
+    cbn [ops_in_msgpath_fragment] in Hfr. destruct Hfr as (([[[[R1 l] R2] xo] tk] & Hc) & Hsz & (m' & e & Hp & Hsz') & Hr).
+    assert (Es : spec_setp S root m o = m').
+    { unfold spec_setp, pstep_total. cbn [pstep_op]. rewrite Hp. reflexivity. }
+    assert (Ec : coded_setp_bytes S root (encode_msg m) o = encode_msg m').
+    { unfold coded_setp_bytes.
+      rewrite (coded_set_refines_msgpath' S root m (fst o) (snd o) m' e R1 l R2 xo tk Hsc Hwf Hsz Hsz' Hc Hp). reflexivity. }
+    rewrite Ec, Es. rewrite Es in Hr. apply IH; [exact Hsc| |exact Hr].
+    eapply pset_wf. exact Hp.
+Qed.
